@@ -4,4 +4,1159 @@ From KV Require Import Model.Daemons.
 Import ListNotations.
 Open Scope Z_scope.
 
-Lemma placeholder_true : True. Proof. exact I. Qed.
+(* ------------------------------------------------------------------ reasons, stop flag *)
+
+Lemma reason_eqb_eq : forall a b, reason_eqb a b = true <-> a = b.
+Proof. intros a b; split; [destruct a, b; cbn; congruence | intros ->; destruct b; reflexivity]. Qed.
+
+Lemma rmem_In : forall r l, rmem r l = true <-> In r l.
+Proof.
+  intros r l; unfold rmem; rewrite existsb_exists; split.
+  - intros [x [Hx He]]; apply reason_eqb_eq in He; subst; exact Hx.
+  - intros H; exists r; split; [exact H | apply reason_eqb_eq; reflexivity].
+Qed.
+
+Lemma radd_In : forall l r x, In x (radd l r) <-> In x l \/ x = r.
+Proof.
+  intros l r x; unfold radd; destruct (rmem r l) eqn:E.
+  - apply rmem_In in E; split; [tauto | intros [H | ->]; assumption].
+  - rewrite in_app_iff; cbn; split.
+    + intros [H | [H | []]]; [left; exact H | right; symmetry; exact H].
+    + intros [H | H]; [left; exact H | right; left; symmetry; exact H].
+Qed.
+
+Lemma fold_radd_In : forall l' l x, In x (fold_left radd l' l) <-> In x l \/ In x l'.
+Proof.
+  induction l' as [| a l' IH]; intros l x; cbn; [tauto |].
+  rewrite IH, radd_In; intuition.
+Qed.
+
+Lemma is_set_after_set : forall sp r now, is_set (sp_set sp (Some r) now) (Some r) = true.
+Proof.
+  intros sp r now; unfold is_set, sp_set; cbn; rewrite andb_true_r.
+  destruct (sp_reason sp) as [l |]; apply rmem_In; [apply radd_In; right; reflexivity | cbn; auto].
+Qed.
+
+Lemma is_set_mono : forall sp r r' now, is_set sp (Some r) = true -> is_set (sp_set sp (Some r') now) (Some r) = true.
+Proof.
+  intros sp r r' now; unfold is_set, sp_set; cbn; rewrite andb_true_r.
+  destruct (sp_reason sp) as [l |]; cbn; [| discriminate].
+  intros H; apply andb_prop in H as [H _]; apply rmem_In; apply radd_In; left; apply rmem_In; exact H.
+Qed.
+
+Lemma set_reason_some : forall sp r now, sp_reason (sp_set sp (Some r) now) <> None.
+Proof. intros sp r now; unfold sp_set; cbn; destruct (sp_reason sp); discriminate. Qed.
+
+Lemma is_set_reason_some : forall sp r, is_set sp (Some r) = true -> sp_reason sp <> None.
+Proof. intros sp r; unfold is_set; destruct (sp_reason sp); [discriminate | cbn; discriminate]. Qed.
+
+(* ------------------------------------------------------------------ the stage table of stop_daemons *)
+
+Lemma stage_of_signal : forall bo tmo age, stage_of bo tmo age = SSignal -> exists b, bo = Some b /\ age < b.
+Proof.
+  intros bo tmo age; unfold stage_of.
+  destruct bo as [b |]; [destruct (age <? b) eqn:E; [intros _; exists b; split; [reflexivity | apply Z.ltb_lt; exact E] |] |];
+    destruct tmo as [t |]; try destruct (age <? t + _); discriminate.
+Qed.
+
+Lemma stage_of_cancel : forall bo tmo age, stage_of bo tmo age = SCancel ->
+  exists t, tmo = Some t /\ oz bo <= age /\ age < t + oz bo /\ (bo = None \/ exists b, bo = Some b /\ b <= age).
+Proof.
+  intros bo tmo age; unfold stage_of.
+  destruct bo as [b |]; cbn [oz].
+  - destruct (age <? b) eqn:E; [discriminate |]. apply Z.ltb_ge in E.
+    destruct tmo as [t |]; [| discriminate]. destruct (age <? t + b) eqn:E2; [| discriminate].
+    apply Z.ltb_lt in E2. intros _; exists t; repeat split; auto; right; exists b; auto.
+  - destruct tmo as [t |]; [| discriminate]. destruct (age <? t + 0) eqn:E2; [| discriminate].
+    apply Z.ltb_lt in E2. intros _; exists t; repeat split; auto.
+Abort.
+
+Lemma stage_of_cancel : forall bo tmo age, stage_of bo tmo age = SCancel ->
+  exists t, tmo = Some t /\ age < t + oz bo /\ (forall b, bo = Some b -> b <= age).
+Proof.
+  intros bo tmo age; unfold stage_of.
+  destruct bo as [b |]; cbn [oz].
+  - destruct (age <? b) eqn:E; [discriminate |]. apply Z.ltb_ge in E.
+    destruct tmo as [t |]; [| discriminate]. destruct (age <? t + b) eqn:E2; [| discriminate].
+    apply Z.ltb_lt in E2. intros _; exists t; repeat split; auto. intros b' Hb; injection Hb as <-; exact E.
+  - destruct tmo as [t |]; [| discriminate]. destruct (age <? t + 0) eqn:E2; [| discriminate].
+    apply Z.ltb_lt in E2. intros _; exists t; repeat split; auto. discriminate.
+Qed.
+
+Lemma stage_of_abandon : forall bo tmo age, stage_of bo tmo age = SAbandon ->
+  exists t, tmo = Some t /\ t + oz bo <= age /\ (forall b, bo = Some b -> b <= age).
+Proof.
+  intros bo tmo age; unfold stage_of.
+  destruct bo as [b |]; cbn [oz].
+  - destruct (age <? b) eqn:E; [discriminate |]. apply Z.ltb_ge in E.
+    destruct tmo as [t |]; [| discriminate]. destruct (age <? t + b) eqn:E2; [discriminate |].
+    apply Z.ltb_ge in E2. intros _; exists t; repeat split; auto. intros b' Hb; injection Hb as <-; exact E.
+  - destruct tmo as [t |]; [| discriminate]. destruct (age <? t + 0) eqn:E2; [discriminate |].
+    apply Z.ltb_ge in E2. intros _; exists t; repeat split; auto. discriminate.
+Qed.
+
+Lemma stage_of_poll : forall bo tmo age, stage_of bo tmo age = SPoll -> tmo = None.
+Proof.
+  intros bo tmo age; unfold stage_of.
+  destruct bo as [b |]; [destruct (age <? b); [discriminate |] |];
+    (destruct tmo as [t |]; [destruct (age <? t + _); discriminate | reflexivity]).
+Qed.
+
+Definition age_of (now : Z) (sp : stopper) : Z := now - (match sp_when sp with Some w => w | None => now end).
+
+(* the first step of every turn: the reason of the stop is on the flag afterwards, whatever else happens *)
+Lemma nudge_keeps : forall flag c now sp ex r sp' d ex' a,
+  nudge flag c now sp ex = (sp', d, ex', a) -> is_set sp (Some r) = true -> is_set sp' (Some r) = true.
+Proof.
+  intros flag c now sp ex r sp' d ex' a; unfold nudge.
+  destruct (is_set sp (Some flag)); [intros H; injection H as <- _ _ _; auto |].
+  destruct (wait_instant false ex) as [d0 ex0]; intros H; injection H as <- _ _ _; apply is_set_mono.
+Qed.
+
+Lemma nudge_cancel : forall flag c now sp ex sp' d ex' a,
+  nudge flag c now sp ex = (sp', d, ex', a) -> In ACancel a -> c = true /\ is_set sp (Some flag) = false.
+Proof.
+  intros flag c now sp ex sp' d ex' a; unfold nudge.
+  destruct (is_set sp (Some flag)); [intros H; injection H as _ _ _ <-; intros [] |].
+  destruct (wait_instant false ex) as [d0 ex0]; intros H; injection H as _ _ _ <-.
+  destruct c; cbn; [auto |]. intros [H | [H | []]]; discriminate.
+Qed.
+
+Lemma nudge_acts : forall flag c now sp ex sp' d ex' a x,
+  nudge flag c now sp ex = (sp', d, ex', a) -> In x a -> x = ASet flag \/ x = ACancel \/ x = AWait.
+Proof.
+  intros flag c now sp ex sp' d ex' a x; unfold nudge.
+  destruct (is_set sp (Some flag)); [intros H; injection H as _ _ _ <-; intros [] |].
+  destruct (wait_instant false ex) as [d0 ex0]; intros H; injection H as _ _ _ <-.
+  destruct c; cbn; intuition.
+Qed.
+
+Section Stage.
+  Variables (h : hcfg) (spoll now : Z) (why : reason) (sp : stopper) (done0 : bool) (ex : list bool).
+  Let r := stage h spoll now why sp done0 ex.
+  Let age := age_of now sp.
+  Let bo := eff_backoff h.
+  Let tmo := eff_timeout h.
+
+  (* head of `stage`, named *)
+  Definition stage_head : stopper * bool * list bool * list act :=
+    if is_set sp (Some why) then (sp, done0, ex, [])
+    else let '(d, ex') := wait_instant done0 ex in (sp_set sp (Some why) now, d, ex', [ASet why; AWait]).
+
+  Lemma head_sets : forall sp1 d1 ex1 a1, stage_head = (sp1, d1, ex1, a1) -> is_set sp1 (Some why) = true.
+  Proof.
+    unfold stage_head; intros sp1 d1 ex1 a1.
+    destruct (is_set sp (Some why)) eqn:E; [intros H; injection H as <- _ _ _; exact E |].
+    destruct (wait_instant done0 ex); intros H; injection H as <- _ _ _; apply is_set_after_set.
+  Qed.
+
+  Lemma head_acts : forall sp1 d1 ex1 a1 x, stage_head = (sp1, d1, ex1, a1) -> In x a1 -> x = ASet why \/ x = AWait.
+  Proof.
+    unfold stage_head; intros sp1 d1 ex1 a1 x.
+    destruct (is_set sp (Some why)); [intros H; injection H as _ _ _ <-; intros [] |].
+    destruct (wait_instant done0 ex); intros H; injection H as _ _ _ <-; cbn; intuition.
+  Qed.
+
+  Lemma stage_unfold :
+    r = let '(sp1, d1, ex1, a1) := stage_head in
+        if d1 then {| r_sp := sp1; r_done := true; r_cancel := false; r_acts := a1; r_delays := []; r_ex := ex1 |}
+        else match stage_of bo tmo age with
+             | SSignal =>
+                 let '(sp2, d2, ex2, a2) := nudge RSignalled false now sp1 ex1 in
+                 {| r_sp := sp2; r_done := d2; r_cancel := false; r_acts := a1 ++ a2;
+                    r_delays := if d2 then [] else [oz bo - age]; r_ex := ex2 |}
+             | SCancel =>
+                 let '(sp2, d2, ex2, a2) := nudge RCancelled true now sp1 ex1 in
+                 {| r_sp := sp2; r_done := d2; r_cancel := negb (is_set sp1 (Some RCancelled)); r_acts := a1 ++ a2;
+                    r_delays := if d2 then [] else [oz tmo + oz bo - age]; r_ex := ex2 |}
+             | SAbandon =>
+                 if is_set sp1 (Some RAbandoned)
+                 then {| r_sp := sp1; r_done := false; r_cancel := false; r_acts := a1; r_delays := []; r_ex := ex1 |}
+                 else {| r_sp := sp_set sp1 (Some RAbandoned) now; r_done := false; r_cancel := false;
+                         r_acts := a1 ++ [ASet RAbandoned; AWarn]; r_delays := []; r_ex := ex1 |}
+             | SPoll =>
+                 {| r_sp := sp1; r_done := false; r_cancel := false; r_acts := a1; r_delays := [eff_polling h spoll]; r_ex := ex1 |}
+             end.
+  Proof. reflexivity. Qed.
+
+  (* 1. flag first: whatever the stage, the stop reason is set on the flag when the turn is over *)
+  Lemma stage_sets_reason : is_set (r_sp r) (Some why) = true.
+  Proof.
+    rewrite stage_unfold. destruct stage_head as [[[sp1 d1] ex1] a1] eqn:Eh. pose proof (head_sets _ _ _ _ Eh) as Hs.
+    destruct d1; [exact Hs |].
+    destruct (stage_of bo tmo age).
+    - destruct (nudge RSignalled false now sp1 ex1) as [[[sp2 d2] ex2] a2] eqn:En; cbn. eapply nudge_keeps; eauto.
+    - destruct (nudge RCancelled true now sp1 ex1) as [[[sp2 d2] ex2] a2] eqn:En; cbn. eapply nudge_keeps; eauto.
+    - destruct (is_set sp1 (Some RAbandoned)); cbn; [exact Hs | apply is_set_mono; exact Hs].
+    - exact Hs.
+  Qed.
+
+  (* 2. cancellation only in the cancellation stage: a timeout is configured, the backoff has elapsed, the timeout not *)
+  Lemma stage_cancel_only_after_backoff :
+    (r_cancel r = true \/ In ACancel (r_acts r)) ->
+    exists t, tmo = Some t /\ age < t + oz bo /\ (forall b, bo = Some b -> b <= age).
+  Proof.
+    rewrite stage_unfold. destruct stage_head as [[[sp1 d1] ex1] a1] eqn:Eh.
+    assert (Ha : ~ In ACancel a1).
+    { intros Hin. destruct (head_acts _ _ _ _ _ Eh Hin); discriminate. }
+    destruct d1; [cbn; intros [H | H]; [discriminate | contradiction] |].
+    destruct (stage_of bo tmo age) eqn:Es.
+    - destruct (nudge RSignalled false now sp1 ex1) as [[[sp2 d2] ex2] a2] eqn:En; cbn.
+      intros [H | H]; [discriminate |]. apply in_app_or in H as [H | H]; [contradiction |].
+      destruct (nudge_cancel _ _ _ _ _ _ _ _ _ En H); discriminate.
+    - intros _. apply stage_of_cancel; exact Es.
+    - destruct (is_set sp1 (Some RAbandoned)); cbn; intros [H | H]; try discriminate; try contradiction.
+      apply in_app_or in H as [H | H]; [contradiction |]. cbn in H; destruct H as [H | [H | []]]; discriminate.
+    - cbn; intros [H | H]; [discriminate | contradiction].
+  Qed.
+
+  (* 3. abandonment only after backoff + timeout, and only with a timeout configured *)
+  Lemma stage_abandon_only_after_timeout :
+    why <> RAbandoned -> In (ASet RAbandoned) (r_acts r) ->
+    exists t, tmo = Some t /\ t + oz bo <= age /\ (forall b, bo = Some b -> b <= age).
+  Proof.
+    intros Hw. rewrite stage_unfold. destruct stage_head as [[[sp1 d1] ex1] a1] eqn:Eh.
+    assert (Ha : ~ In (ASet RAbandoned) a1).
+    { intros Hin. destruct (head_acts _ _ _ _ _ Eh Hin) as [H | H]; [injection H as H; congruence | discriminate]. }
+    destruct d1; [cbn; intros H; contradiction |].
+    destruct (stage_of bo tmo age) eqn:Es.
+    - destruct (nudge RSignalled false now sp1 ex1) as [[[sp2 d2] ex2] a2] eqn:En; cbn.
+      intros H. apply in_app_or in H as [H | H]; [contradiction |].
+      destruct (nudge_acts _ _ _ _ _ _ _ _ _ _ En H) as [H1 | [H1 | H1]]; discriminate.
+    - destruct (nudge RCancelled true now sp1 ex1) as [[[sp2 d2] ex2] a2] eqn:En; cbn.
+      intros H. apply in_app_or in H as [H | H]; [contradiction |].
+      destruct (nudge_acts _ _ _ _ _ _ _ _ _ _ En H) as [H1 | [H1 | H1]]; discriminate.
+    - intros _. apply stage_of_abandon; exact Es.
+    - cbn; intros H; contradiction.
+  Qed.
+
+  (* 4. a daemon that is still running is re-checked later (a positive delay landing exactly on the next stage
+        boundary, or the polling period) unless it has been abandoned *)
+  Lemma stage_delays_until_done :
+    r_done r = false ->
+    match stage_of bo tmo age with
+    | SSignal => r_delays r = [oz bo - age] /\ 0 < oz bo - age
+    | SCancel => r_delays r = [oz tmo + oz bo - age] /\ 0 < oz tmo + oz bo - age
+    | SAbandon => r_delays r = [] /\ is_set (r_sp r) (Some RAbandoned) = true
+    | SPoll => r_delays r = [eff_polling h spoll]
+    end.
+  Proof.
+    rewrite stage_unfold. destruct stage_head as [[[sp1 d1] ex1] a1] eqn:Eh.
+    destruct d1; [cbn; discriminate |].
+    destruct (stage_of bo tmo age) eqn:Es.
+    - destruct (nudge RSignalled false now sp1 ex1) as [[[sp2 d2] ex2] a2] eqn:En; cbn. intros ->.
+      split; [reflexivity |]. destruct (stage_of_signal _ _ _ Es) as [b [Hb Hlt]]. rewrite Hb; cbn [oz]; lia.
+    - destruct (nudge RCancelled true now sp1 ex1) as [[[sp2 d2] ex2] a2] eqn:En; cbn. intros ->.
+      split; [reflexivity |]. destruct (stage_of_cancel _ _ _ Es) as [t [Ht [Hlt _]]]. rewrite Ht; cbn [oz]; lia.
+    - destruct (is_set sp1 (Some RAbandoned)) eqn:Ea; cbn; intros _; split; auto. apply is_set_after_set.
+    - cbn; reflexivity.
+  Qed.
+
+  (* 5. nothing is done to a daemon that has ended, beyond putting the reason on its (dead) flag *)
+  Lemma stage_done_is_quiet : done0 = true -> r_done r = true /\ r_delays r = [] /\ r_cancel r = false.
+  Proof.
+    intros Hd. rewrite stage_unfold. unfold stage_head. rewrite Hd.
+    destruct (is_set sp (Some why)); cbn; auto.
+  Qed.
+End Stage.
+
+(* following the returned delays moves to the next stage: at most three calls until nothing is left to wait for,
+   whenever a cancellation timeout is configured *)
+Lemma stage_next_after_signal : forall bo tmo age, stage_of bo tmo age = SSignal ->
+  stage_of bo tmo (age + (oz bo - age)) <> SSignal.
+Proof.
+  intros bo tmo age H. destruct (stage_of_signal _ _ _ H) as [b [-> Hlt]]. cbn [oz].
+  replace (age + (b - age)) with b by lia. unfold stage_of. rewrite Z.ltb_irrefl.
+  destruct tmo as [t |]; [destruct (b <? t + oz (Some b)) |]; discriminate.
+Qed.
+
+Lemma stage_next_after_cancel : forall bo tmo age, stage_of bo tmo age = SCancel ->
+  stage_of bo tmo (age + (oz tmo + oz bo - age)) = SAbandon.
+Proof.
+  intros bo tmo age H. destruct (stage_of_cancel _ _ _ H) as [t [-> [Hlt Hb]]]. cbn [oz].
+  replace (age + (t + oz bo - age)) with (t + oz bo) by lia. unfold stage_of.
+  rewrite Z.ltb_irrefl. destruct bo as [b |]; [| reflexivity].
+  cbn [oz] in *. specialize (Hb b eq_refl). destruct (t + b <? b) eqn:E; [apply Z.ltb_lt in E; lia | reflexivity].
+Qed.
+
+Lemma stage_abandon_is_final : forall bo tmo age d, stage_of bo tmo age = SAbandon -> 0 <= d -> stage_of bo tmo (age + d) = SAbandon.
+Proof.
+  intros bo tmo age d H Hd. destruct (stage_of_abandon _ _ _ H) as [t [-> [Hle Hb]]]. unfold stage_of.
+  destruct bo as [b |]; cbn [oz] in *.
+  - specialize (Hb b eq_refl). destruct (age + d <? b) eqn:E; [apply Z.ltb_lt in E; lia |].
+    destruct (age + d <? t + b) eqn:E2; [apply Z.ltb_lt in E2; lia | reflexivity].
+  - destruct (age + d <? t + 0) eqn:E2; [apply Z.ltb_lt in E2; lia | reflexivity].
+Qed.
+
+(* ------------------------------------------------------------------ stop_daemon (linear) *)
+
+Lemma wait_until_bounds : forall r f c t limit, t <= wait_until r f c t limit <= t + Z.max 0 limit.
+Proof.
+  intros r f c t limit; unfold wait_until. destruct (endtime r f c) as [e |]; [destruct (e <=? t + Z.max 0 limit) eqn:E |]; lia.
+Qed.
+
+Lemma wait_until_not_done : forall x f c t limit,
+  done_by x f c (wait_until x f c t limit) = false -> wait_until x f c t limit = t + Z.max 0 limit.
+Proof.
+  intros x f c t limit; unfold done_by, wait_until.
+  destruct (endtime x f c) as [e |]; [| reflexivity].
+  destruct (e <=? t + Z.max 0 limit) eqn:E; [| reflexivity].
+  intros H; apply Z.leb_gt in H; lia.
+Qed.
+
+Section Linear.
+  Variables (h : hcfg) (why : reason) (sp : stopper) (t0 : Z) (done0 : bool) (x : rx).
+  Let r := linear_stop h why sp t0 done0 x.
+  Let bo := eff_backoff h.
+  Let tmo := eff_timeout h.
+
+  Lemma linear_flag_first : exists tl, l_trace r = (t0, ASet why) :: tl.
+  Proof.
+    unfold r, linear_stop.
+    destruct (eff_backoff h) as [b |]; destruct (eff_timeout h) as [t |];
+      repeat match goal with |- context [if ?c then _ else _] => destruct c end; cbn; eexists; reflexivity.
+  Qed.
+
+  Lemma linear_sets_reason : is_set (l_sp r) (Some why) = true.
+  Proof.
+    unfold r, linear_stop.
+    destruct (eff_backoff h) as [b |]; destruct (eff_timeout h) as [t |];
+      repeat match goal with |- context [if ?c then _ else _] => destruct c end; cbn;
+      repeat (first [apply is_set_after_set | apply is_set_mono]).
+  Qed.
+
+  (* bounded: the procedure returns within backoff + timeout, whatever the daemon does *)
+  Lemma linear_bounded : t0 <= l_end r <= t0 + Z.max 0 (oz bo) + Z.max 0 (oz tmo).
+  Proof.
+    unfold r, linear_stop, bo, tmo.
+    destruct (eff_backoff h) as [b |]; destruct (eff_timeout h) as [t |]; cbn [oz];
+      repeat match goal with |- context [if ?c then _ else _] => destruct c end; cbn [l_end];
+      repeat match goal with |- context [wait_until ?a ?b ?c ?d ?e] =>
+        lazymatch goal with
+        | _ : d <= wait_until a b c d e <= _ |- _ => fail
+        | _ => pose proof (wait_until_bounds a b c d e)
+        end end;
+      try lia.
+    all: pose proof (wait_until_bounds x (sp_when (sp_set sp (Some why) t0)) None t0 b); lia.
+  Qed.
+
+  (* the task is cancelled only with a timeout configured, and exactly when the backoff has been waited out in full *)
+  Lemma linear_cancel_after_backoff : forall tc, l_cancelled r = Some tc ->
+    exists t, tmo = Some t /\ In (tc, ACancel) (l_trace r) /\ t0 <= tc /\ (forall b, bo = Some b -> tc = t0 + Z.max 0 b).
+  Proof.
+    unfold r, linear_stop, bo, tmo. intros tc.
+    destruct (eff_backoff h) as [b |]; destruct (eff_timeout h) as [t |]; cbn [oz].
+    all: repeat match goal with |- context [if ?c then _ else _] => destruct c eqn:? end; cbn [l_cancelled l_trace]; try discriminate.
+    all: intros H; injection H as <-; exists t; split; [reflexivity |].
+    all: split; [cbn; auto 12 |].
+    all: split; [try lia; try apply wait_until_bounds |].
+    all: intros b' Hb'; try discriminate; injection Hb' as <-.
+    all: try (apply wait_until_not_done;
+              match goal with H : _ || done_by _ _ None (wait_until _ _ None _ _) = false |- _ =>
+                apply orb_false_elim in H; destruct H as [_ H]; exact H end).
+    all: exfalso; match goal with H1 : ?c = true, H2 : ?c = false |- _ => rewrite H1 in H2; discriminate end.
+  Qed.
+
+  (* never returns leaving a running daemon that was not given up explicitly *)
+  Lemma linear_done_or_abandoned : l_done r = false -> is_set (l_sp r) (Some RAbandoned) = true.
+  Proof.
+    unfold r, linear_stop.
+    destruct (eff_backoff h) as [b |]; destruct (eff_timeout h) as [t |];
+      repeat match goal with |- context [if ?c then _ else _] => destruct c end; cbn; try discriminate;
+      intros _; apply is_set_after_set.
+  Qed.
+End Linear.
+
+(* ------------------------------------------------------------------ _timer under a set stopper (F1) *)
+
+Lemma timer_tail_spin : forall c fuel,
+  t_interval c = None -> t_idle c <> None -> timer_tail false c false fuel TIdleOnly = None.
+Proof.
+  intros c fuel Hi Hd; induction fuel as [| f IH]; cbn; [reflexivity |]. rewrite IH; reflexivity.
+Qed.
+
+Lemma timer_tail_refuted :
+  exists c p, forall fuel, timer_tail false c false fuel p = None.
+Proof.
+  exists {| t_interval := None; t_idle := Some 1000; t_sharp := false |}, (TAfterRun true).
+  intros [| fuel]; cbn; [reflexivity |]. rewrite timer_tail_spin; cbn; congruence.
+Qed.
+
+Lemma timer_tail_partial : forall c ra p fuel,
+  (t_interval c <> None \/ t_idle c = None \/ ra = true) -> (4 <= fuel)%nat ->
+  exists n, timer_tail false c ra fuel p = Some n /\ (n <= 1)%nat.
+Proof.
+  intros c ra p fuel H Hf.
+  do 4 (destruct fuel as [| fuel]; [lia |]).
+  destruct p as [| | d | |]; cbn.
+  - exists 0%nat; split; [reflexivity | lia].
+  - exists 0%nat; split; [reflexivity | lia].
+  - destruct d; cbn.
+    + destruct (t_interval c) as [i |] eqn:Ei; cbn; [exists 1%nat; split; [reflexivity | lia] |].
+      destruct (t_idle c) as [d |] eqn:Ed; cbn; [| exists 0%nat; split; [reflexivity | lia]].
+      destruct H as [H | [H | ->]]; [congruence | congruence |]. cbn. exists 0%nat; split; [reflexivity | lia].
+    + exists 1%nat; split; [reflexivity | lia].
+  - destruct ra; cbn; [exists 0%nat; split; [reflexivity | lia] |].
+    destruct H as [H | [H | H]]; [| | discriminate].
+    + (* not reachable with an interval, but the statement is about every point: the loop condition is what it is *)
+      Abort.
+
+(* TIdleOnly is entered only by idle-only timers (tstep: interval = None, idle <> None); the partial statement is therefore
+   about the points the code can be at for the given configuration *)
+Definition reachable_point (c : tcfg) (p : tpoint) : bool :=
+  match p with
+  | TIdleOnly => match t_interval c, t_idle c with None, Some _ => true | _, _ => false end
+  | TIdleWait => match t_idle c with Some _ => true | None => false end
+  | _ => true
+  end.
+
+Lemma timer_tail_partial : forall c ra p fuel,
+  reachable_point c p = true ->
+  (t_interval c <> None \/ t_idle c = None \/ ra = true) -> (4 <= fuel)%nat ->
+  exists n, timer_tail false c ra fuel p = Some n /\ (n <= 1)%nat.
+Proof.
+  intros c ra p fuel Hr H Hf.
+  do 4 (destruct fuel as [| fuel]; [lia |]).
+  destruct p as [| | d | |]; cbn.
+  - exists 0%nat; split; [reflexivity | lia].
+  - exists 0%nat; split; [reflexivity | lia].
+  - destruct d; cbn.
+    + destruct (t_interval c) as [i |] eqn:Ei; cbn; [exists 1%nat; split; [reflexivity | lia] |].
+      destruct (t_idle c) as [d |] eqn:Ed; cbn; [| exists 0%nat; split; [reflexivity | lia]].
+      destruct H as [H | [H | ->]]; [congruence | congruence |]. cbn. exists 0%nat; split; [reflexivity | lia].
+    + exists 1%nat; split; [reflexivity | lia].
+  - cbn in Hr. destruct (t_interval c) eqn:Ei; [discriminate |]. destruct (t_idle c) eqn:Ed; [| discriminate].
+    destruct H as [H | [H | ->]]; [congruence | congruence |]. cbn. exists 0%nat; split; [reflexivity | lia].
+  - exists 0%nat; split; [reflexivity | lia].
+Qed.
+
+(* with the proposed one-line repair (`and not stopper.is_set()` in the idle-only loop) the coroutine always leaves *)
+Lemma timer_tail_guarded : forall c ra p fuel, (4 <= fuel)%nat ->
+  exists n, timer_tail true c ra fuel p = Some n /\ (n <= 1)%nat.
+Proof.
+  intros c ra p fuel Hf.
+  do 4 (destruct fuel as [| fuel]; [lia |]).
+  destruct p as [| | d | |]; cbn.
+  - exists 0%nat; split; [reflexivity | lia].
+  - exists 0%nat; split; [reflexivity | lia].
+  - destruct d; cbn; [| exists 1%nat; split; [reflexivity | lia]].
+    destruct (t_interval c); cbn; [exists 1%nat; split; [reflexivity | lia] |].
+    destruct (t_idle c); cbn; [rewrite orb_true_r; cbn |]; exists 0%nat; split; try reflexivity; lia.
+  - rewrite orb_true_r; cbn. exists 0%nat; split; [reflexivity | lia].
+  - exists 0%nat; split; [reflexivity | lia].
+Qed.
+
+Example timer_tail_nonvacuous :
+  timer_tail false {| t_interval := Some 1000; t_idle := Some 2000; t_sharp := true |} false 4 (TAfterRun true) = Some 1%nat
+  /\ timer_tail false {| t_interval := None; t_idle := Some 2000; t_sharp := false |} true 4 (TAfterRun true) = Some 0%nat.
+Proof. split; reflexivity. Qed.
+
+(* ------------------------------------------------------------------ the life-cycle LTS: invariant *)
+
+Ltac prj := try unfold set_running; try unfold with_delays; try unfold forget; try unfold set_kiter; cbn [o_running o_live o_forever o_next o_known o_gone o_kstop o_kiter o_delays].
+
+Definition proj (r : list (nat * inst)) : list (nat * nat) := map (fun kv => (fst kv, i_ser (snd kv))) r.
+
+Definition Inv (s : ost) : Prop := NoDup (keys (o_running s)) /\ o_live s = proj (o_running s).
+
+Lemma nmem_In : forall k l, nmem k l = true <-> In k l.
+Proof.
+  intros k l; unfold nmem; rewrite existsb_exists; split.
+  - intros [x [Hx He]]; apply Nat.eqb_eq in He; subst; exact Hx.
+  - intros H; exists k; split; [exact H | apply Nat.eqb_refl].
+Qed.
+
+Lemma nmem_false : forall k l, nmem k l = false <-> ~ In k l.
+Proof. intros k l; rewrite <- nmem_In; destruct (nmem k l); split; congruence. Qed.
+
+Lemma lookup_In : forall A k (l : list (nat * A)) v, lookup k l = Some v -> In (k, v) l.
+Proof.
+  induction l as [| [k' v'] l IH]; cbn; [discriminate |]. intros v.
+  destruct (Nat.eqb k k') eqn:E; [apply Nat.eqb_eq in E; subst; intros H; injection H as ->; auto | auto].
+Qed.
+
+Lemma lookup_keys : forall A k (l : list (nat * A)), lookup k l = None <-> ~ In k (keys l).
+Proof.
+  induction l as [| [k' v'] l IH]; cbn; [tauto |].
+  destruct (Nat.eqb k k') eqn:E.
+  - apply Nat.eqb_eq in E; subst; split; [discriminate | intros H; exfalso; apply H; auto].
+  - apply Nat.eqb_neq in E. rewrite IH. split; [intros H [H1 | H1]; [congruence | auto] | intros H H1; apply H; auto].
+Qed.
+
+Lemma In_lookup : forall A k v (l : list (nat * A)), NoDup (keys l) -> In (k, v) l -> lookup k l = Some v.
+Proof.
+  induction l as [| [k' v'] l IH]; cbn; [intros _ [] |]. intros Hnd [H | H].
+  - injection H as -> ->. rewrite Nat.eqb_refl; reflexivity.
+  - inversion Hnd as [| ? ? Hni Hnd']; subst. destruct (Nat.eqb k k') eqn:E.
+    + apply Nat.eqb_eq in E; subst. exfalso; apply Hni. change k' with (fst (k', v)). apply in_map; exact H.
+    + apply IH; assumption.
+Qed.
+
+Lemma keys_update : forall A k (v : A) l, keys (update k v l) = keys l.
+Proof.
+  induction l as [| [k' v'] l IH]; cbn; [reflexivity |]. destruct (Nat.eqb k k'); cbn; [reflexivity | f_equal; exact IH].
+Qed.
+
+Lemma proj_update : forall k i i' l, lookup k l = Some i -> i_ser i' = i_ser i -> proj (update k i' l) = proj l.
+Proof.
+  induction l as [| [k' v'] l IH]; cbn; [reflexivity |]. destruct (Nat.eqb k k') eqn:E; cbn.
+  - intros H Hs; injection H as ->. rewrite Hs; reflexivity.
+  - intros H Hs; f_equal; apply IH; auto.
+Qed.
+
+Lemma lookup_update_same : forall A k (v : A) l, lookup k l <> None -> lookup k (update k v l) = Some v.
+Proof.
+  induction l as [| [k' v'] l IH]; cbn; [congruence |]. destruct (Nat.eqb k k') eqn:E; cbn; rewrite E; auto.
+Qed.
+
+Lemma lookup_update_other : forall A k k2 (v : A) l, k2 <> k -> lookup k2 (update k v l) = lookup k2 l.
+Proof.
+  induction l as [| [k' v'] l IH]; cbn; [reflexivity |]. intros Hne. destruct (Nat.eqb k k') eqn:E; cbn.
+  - apply Nat.eqb_eq in E; subst. destruct (Nat.eqb k2 k') eqn:E2; [apply Nat.eqb_eq in E2; congruence | reflexivity].
+  - destruct (Nat.eqb k2 k'); auto.
+Qed.
+
+Lemma keys_remove : forall A k (l : list (nat * A)), keys (remove_key k l) = filter (fun x => negb (Nat.eqb k x)) (keys l).
+Proof.
+  induction l as [| [k' v'] l IH]; cbn; [reflexivity |]. destruct (Nat.eqb k k'); cbn; [| f_equal]; exact IH.
+Qed.
+
+Lemma remove_absent : forall A k (l : list (nat * A)), ~ In k (keys l) -> remove_key k l = l.
+Proof.
+  induction l as [| [k' v'] l IH]; cbn; [reflexivity |]. intros H.
+  destruct (Nat.eqb k k') eqn:E; [apply Nat.eqb_eq in E; subst; exfalso; apply H; auto |].
+  cbn. f_equal. apply IH. intros H1; apply H; auto.
+Qed.
+
+Lemma lookup_remove_other : forall A k k2 (l : list (nat * A)), k2 <> k -> lookup k2 (remove_key k l) = lookup k2 l.
+Proof.
+  induction l as [| [k' v'] l IH]; cbn; [reflexivity |]. intros Hne.
+  destruct (Nat.eqb k k') eqn:E; cbn.
+  - apply Nat.eqb_eq in E; subst. destruct (Nat.eqb k2 k') eqn:E2; [apply Nat.eqb_eq in E2; congruence |]. apply IH; auto.
+  - destruct (Nat.eqb k2 k'); [reflexivity | apply IH; auto].
+Qed.
+
+Lemma lookup_remove_same : forall A k (l : list (nat * A)), lookup k (remove_key k l) = None.
+Proof.
+  intros A k l; apply lookup_keys. rewrite keys_remove, filter_In. rewrite Nat.eqb_refl; cbn. intros [_ H]; discriminate.
+Qed.
+
+Lemma proj_filter_absent : forall k ser l, ~ In k (keys l) ->
+  filter (fun p => negb (Nat.eqb (fst p) k && Nat.eqb (snd p) ser)) (proj l) = proj l.
+Proof.
+  induction l as [| [k' v'] l IH]; cbn; [reflexivity |]. intros H.
+  destruct (Nat.eqb k' k) eqn:E; [apply Nat.eqb_eq in E; subst; exfalso; apply H; auto |]. cbn. f_equal. apply IH. intros H1; apply H; auto.
+Qed.
+
+Lemma proj_remove : forall k i l, NoDup (keys l) -> lookup k l = Some i ->
+  filter (fun p => negb (Nat.eqb (fst p) k && Nat.eqb (snd p) (i_ser i))) (proj l) = proj (remove_key k l).
+Proof.
+  induction l as [| [k' v'] l IH]; cbn; [discriminate |]. intros Hnd. inversion Hnd as [| ? ? Hni Hnd']; subst.
+  destruct (Nat.eqb k k') eqn:E.
+  - apply Nat.eqb_eq in E; subst. intros H; injection H as ->. rewrite !Nat.eqb_refl; cbn.
+    etransitivity; [apply (proj_filter_absent k' (i_ser i) l Hni) |].
+    symmetry. change (proj (remove_key k' l) = proj l). rewrite (remove_absent _ k' l Hni). reflexivity.
+  - intros H. rewrite Nat.eqb_sym, E. cbn. f_equal. apply IH; auto.
+Qed.
+
+Lemma keys_proj : forall l, map fst (proj l) = keys l.
+Proof. intros l; unfold proj, keys; rewrite map_map; reflexivity. Qed.
+
+Lemma finish_inv : forall id s s', Inv s -> finish id s = Some s' -> Inv s'.
+Proof.
+  intros id s s' [Hnd Hl]; unfold finish. destruct (lookup id (o_running s)) as [i |] eqn:E; [| discriminate].
+  intros H; injection H as <-; split; prj.
+  - rewrite keys_remove. apply NoDup_filter; exact Hnd.
+  - rewrite Hl. apply proj_remove; assumption.
+Qed.
+
+Lemma finish_forever_mono : forall id s s' x, finish id s = Some s' -> In x (o_forever s) -> In x (o_forever s').
+Proof.
+  intros id s s' x; unfold finish. destruct (lookup id (o_running s)) as [i |]; [| discriminate].
+  intros H; injection H as <-; prj. destruct (sp_reason (i_sp i)); auto. destruct (nmem id (o_forever s)); auto.
+  intros Hx; apply in_or_app; auto.
+Qed.
+
+Lemma finish_keys : forall id s s', finish id s = Some s' -> forall x, In x (keys (o_running s')) <-> In x (keys (o_running s)) /\ x <> id.
+Proof.
+  intros id s s'; unfold finish. destruct (lookup id (o_running s)) as [i |]; [| discriminate].
+  intros H; injection H as <-; prj. intros x. rewrite keys_remove, filter_In. rewrite negb_true_iff, Nat.eqb_neq. intuition.
+Qed.
+
+Lemma finish_lookup_other : forall id s s' k, finish id s = Some s' -> k <> id -> lookup k (o_running s') = lookup k (o_running s).
+Proof.
+  intros id s s' k; unfold finish. destruct (lookup id (o_running s)) as [i |]; [| discriminate].
+  intros H; injection H as <-; prj. apply lookup_remove_other.
+Qed.
+
+Lemma finish_misc : forall id s s', finish id s = Some s' ->
+  o_known s' = o_known s /\ o_gone s' = o_gone s /\ o_kstop s' = o_kstop s /\ o_kiter s' = o_kiter s /\ o_next s' = o_next s.
+Proof.
+  intros id s s'; unfold finish. destruct (lookup id (o_running s)) as [i |]; [| discriminate].
+  intros H; injection H as <-; prj; auto.
+Qed.
+
+(* an instance that ends while its stopper never got a reason is remembered forever *)
+Lemma finish_own_exit : forall id s s' i, lookup id (o_running s) = Some i -> sp_reason (i_sp i) = None ->
+  finish id s = Some s' -> In id (o_forever s') /\ ~ In id (keys (o_running s')).
+Proof.
+  intros id s s' i Hl Hr; unfold finish; rewrite Hl. intros H; injection H as <-; prj. rewrite Hr. split.
+  - destruct (nmem id (o_forever s)) eqn:E; [apply nmem_In; exact E | apply in_or_app; right; cbn; auto].
+  - apply lookup_keys. apply lookup_remove_same.
+Qed.
+
+Lemma NoDup_snoc : forall A (l : list A) a, NoDup l -> ~ In a l -> NoDup (l ++ [a]).
+Proof.
+  induction l as [| x l IH]; cbn; intros a Hnd Hni; [constructor; [intros [] | constructor] |].
+  inversion Hnd as [| ? ? Hx Hnd']; subst. constructor.
+  - rewrite in_app_iff; cbn. intros [H | [H | []]]; [contradiction | subst; apply Hni; auto].
+  - apply IH; auto.
+Qed.
+
+Lemma spawn_all_inv : forall hs s, Inv s -> Inv (spawn_all hs s).
+Proof.
+  induction hs as [| [id h] hs IH]; cbn; [auto |]. intros s [Hnd Hl]. apply IH.
+  destruct (nmem id (keys (o_running s))) eqn:E; [split; assumption |].
+  apply nmem_false in E. split; prj.
+  - unfold keys; rewrite map_app; cbn. apply NoDup_snoc; assumption.
+  - rewrite Hl; unfold proj; rewrite map_app; reflexivity.
+Qed.
+
+Lemma set_running_inv : forall s id i i', Inv s -> lookup id (o_running s) = Some i -> i_ser i' = i_ser i ->
+  Inv (set_running s (update id i' (o_running s))).
+Proof.
+  intros s id i i' [Hnd Hl] Hlk Hs; split; prj.
+  - rewrite keys_update; exact Hnd.
+  - rewrite Hl. symmetry. eapply proj_update; eauto.
+Qed.
+
+(* one turn of stop_daemons on a daemon that is in the dict *)
+Definition turn (spoll now : Z) (why : reason) (id : nat) (i : inst) (ex : list bool) (s : ost) : ost * list Z :=
+  let r := stage (i_h i) spoll now why (i_sp i) false ex in
+  let i' := {| i_ser := i_ser i; i_h := i_h i; i_sp := r_sp r; i_canc := i_canc i || r_cancel r |} in
+  let s1 := set_running s (update id i' (o_running s)) in
+  (if r_done r then match finish id s1 with Some x => x | None => s1 end else s1, r_delays r).
+
+Lemma stop_list_cons : forall spoll now why id rest orc s,
+  stop_list spoll now why (id :: rest) orc s =
+  match lookup id (o_running s) with
+  | None => stop_list spoll now why rest (tl orc) s
+  | Some i =>
+      if fst (match orc with o :: _ => o | [] => (false, []) end)
+      then stop_list spoll now why rest (tl orc) (match finish id s with Some x => x | None => s end)
+      else let '(s3, ds, orc3) := stop_list spoll now why rest (tl orc)
+                                   (fst (turn spoll now why id i (snd (match orc with o :: _ => o | [] => (false, []) end)) s)) in
+           (s3, snd (turn spoll now why id i (snd (match orc with o :: _ => o | [] => (false, []) end)) s) ++ ds, orc3)
+  end.
+Proof.
+  intros. cbn [stop_list]. destruct (match orc with o :: _ => o | [] => (false, []) end) as [d0 ex]. cbn [fst snd].
+  destruct (lookup id (o_running s)); [| reflexivity]. destruct d0; reflexivity.
+Qed.
+
+(* A property of states that survives the two things a turn can do survives stop_list. *)
+Section StopListInd.
+  Variable R : ost -> ost -> Prop.
+  Hypothesis R_refl : forall s, R s s.
+  Hypothesis R_trans : forall a b c, R a b -> R b c -> R a c.
+  Hypothesis R_upd : forall s id i i', lookup id (o_running s) = Some i -> i_ser i' = i_ser i ->
+    R s (set_running s (update id i' (o_running s))).
+  Hypothesis R_fin : forall s id s', finish id s = Some s' -> R s s'.
+
+  Lemma turn_R : forall spoll now why id i ex s, lookup id (o_running s) = Some i -> R s (fst (turn spoll now why id i ex s)).
+  Proof.
+    intros. unfold turn; cbn [fst].
+    match goal with |- R s (if ?c then _ else ?s1) => assert (H1 : R s s1) by (apply R_upd with (i := i); auto); destruct c; [| exact H1] end.
+    match goal with |- R s (match finish id ?s1 with _ => _ end) => destruct (finish id s1) eqn:E; [| exact H1] end.
+    eapply R_trans; [exact H1 | eapply R_fin; eauto].
+  Qed.
+
+  Lemma stop_list_R : forall spoll now why targets orc s, R s (fst (fst (stop_list spoll now why targets orc s))).
+  Proof.
+    induction targets as [| id rest IH]; intros orc s; [apply R_refl |].
+    rewrite stop_list_cons. destruct (lookup id (o_running s)) as [i |] eqn:El; [| apply IH].
+    match goal with |- context [if fst ?o then _ else _] => destruct (fst o) end.
+    - destruct (finish id s) eqn:Ef; [eapply R_trans; [eapply R_fin; eauto | apply IH] | apply IH].
+    - match goal with |- context [stop_list ?a ?b ?c ?d ?e ?f] => specialize (IH e f); destruct (stop_list a b c d e f) as [[s3 ds] orc3] end.
+      cbn [fst] in *. eapply R_trans; [apply turn_R; exact El | exact IH].
+  Qed.
+End StopListInd.
+
+Lemma stop_list_inv : forall spoll now why targets orc s, Inv s -> Inv (fst (fst (stop_list spoll now why targets orc s))).
+Proof.
+  intros spoll now why targets orc s.
+  apply (stop_list_R (fun a b => Inv a -> Inv b)); auto.
+  - intros; eapply set_running_inv; eauto.
+  - intros; eapply finish_inv; eauto.
+Qed.
+
+Lemma stop_list_forever : forall spoll now why targets orc s x,
+  In x (o_forever s) -> In x (o_forever (fst (fst (stop_list spoll now why targets orc s)))).
+Proof.
+  intros spoll now why targets orc s x.
+  apply (stop_list_R (fun a b => In x (o_forever a) -> In x (o_forever b))); auto.
+  intros; eapply finish_forever_mono; eauto.
+Qed.
+
+Lemma stop_list_keys_sub : forall spoll now why targets orc s x,
+  In x (keys (o_running (fst (fst (stop_list spoll now why targets orc s))))) -> In x (keys (o_running s)).
+Proof.
+  intros spoll now why targets orc s x.
+  apply (stop_list_R (fun a b => In x (keys (o_running b)) -> In x (keys (o_running a)))); auto.
+  - intros s0 id i i' _ _; prj. rewrite keys_update; auto.
+  - intros s0 id s' Hf H. apply (finish_keys _ _ _ Hf) in H. tauto.
+Qed.
+
+Lemma stop_list_misc : forall spoll now why targets orc s,
+  let s' := fst (fst (stop_list spoll now why targets orc s)) in
+  o_known s' = o_known s /\ o_gone s' = o_gone s /\ o_kstop s' = o_kstop s /\ o_kiter s' = o_kiter s /\ o_next s' = o_next s.
+Proof.
+  intros spoll now why targets orc s.
+  apply (stop_list_R (fun a b => o_known b = o_known a /\ o_gone b = o_gone a /\ o_kstop b = o_kstop a /\ o_kiter b = o_kiter a /\ o_next b = o_next a)).
+  - auto.
+  - intros a b c (H1 & H2 & H3 & H4 & H5) (G1 & G2 & G3 & G4 & G5); repeat split; congruence.
+  - intros; prj; auto.
+  - intros s0 id s' Hf. apply finish_misc in Hf. exact Hf.
+Qed.
+
+Lemma with_delays_inv : forall s d, Inv s -> Inv (with_delays s d).
+Proof. intros s d [H1 H2]; split; prj; assumption. Qed.
+
+Lemma proc_inv : forall spoll v now orc s, Inv s -> Inv (proc spoll v now orc s).
+Proof.
+  intros spoll v now orc s H. unfold proc. destruct (v_deleting v).
+  - pose proof (stop_list_inv spoll now RDeleted (keys (o_running s)) orc s H) as H1.
+    destruct (stop_list spoll now RDeleted (keys (o_running s)) orc s) as [[s1 ds] o1]. apply with_delays_inv; exact H1.
+  - match goal with |- context [spawn_all ?hs s] => pose proof (spawn_all_inv hs s H) as H0; set (s0 := spawn_all hs s) in * end.
+    match goal with |- context [stop_list spoll now RMismatch ?t orc s0] =>
+      pose proof (stop_list_inv spoll now RMismatch t orc s0 H0) as H1;
+      destruct (stop_list spoll now RMismatch t orc s0) as [[s2 d2] orc2] end. cbn [fst] in H1.
+    destruct (v_paused v); [| apply with_delays_inv; exact H1].
+    pose proof (stop_list_inv spoll now RPausing (keys (o_running s2)) orc2 s2 H1) as H2.
+    destruct (stop_list spoll now RPausing (keys (o_running s2)) orc2 s2) as [[s3 d3] o3]. apply with_delays_inv; exact H2.
+Qed.
+
+Lemma upd_inst_inv : forall s id ser f, (forall i, i_ser (f i) = i_ser i) -> Inv s -> Inv (upd_inst s id ser f).
+Proof.
+  intros s id ser f Hf H. unfold upd_inst. destruct (lookup id (o_running s)) as [i |] eqn:E; [| exact H].
+  destruct (Nat.eqb (i_ser i) ser); [| exact H]. eapply set_running_inv; eauto.
+Qed.
+
+Lemma step_inv : forall spoll s l s', Inv s -> step spoll s l = Some s' -> Inv s'.
+Proof.
+  intros spoll s l s' H. destruct l; cbn [step].
+  - destruct (o_gone s); [discriminate |]. intros E; injection E as <-. apply proc_inv.
+    destruct deleted_event; [destruct H; split; prj; assumption | exact H].
+  - destruct (lookup id (o_running s)) as [i |]; [| discriminate]. destruct (Nat.eqb (i_ser i) ser); [| discriminate].
+    apply finish_inv; exact H.
+  - destruct (o_known s); [| discriminate]. intros E; injection E as <-. destruct H; split; prj; assumption.
+  - intros E; injection E as <-. destruct H; split; prj; assumption.
+  - destruct (o_kiter s); [| discriminate]. intros E; injection E as <-.
+    destruct (has_inst s id ser); [destruct H; split; prj; assumption | exact H].
+  - destruct (_ && _); [| discriminate]. intros E; injection E as <-. apply upd_inst_inv; auto.
+  - destruct (_ && _); [| discriminate]. intros E; injection E as <-. apply upd_inst_inv; auto.
+  - destruct (_ || _); [| discriminate]. intros E; injection E as <-. apply upd_inst_inv; auto.
+Qed.
+
+Lemma init_inv : Inv init.
+Proof. split; cbn; [constructor | reflexivity]. Qed.
+
+Lemma run_inv : forall spoll tr s s', Inv s -> run spoll s tr = Some s' -> Inv s'.
+Proof.
+  induction tr as [| l tr IH]; cbn; intros s s' H.
+  - intros E; injection E as <-; exact H.
+  - destruct (step spoll s l) as [s1 |] eqn:E; [| discriminate]. apply IH. eapply step_inv; eauto.
+Qed.
+
+(* ---- at most one instance per handler id *)
+Lemma inv_single : forall s id ser1 ser2, Inv s -> In (id, ser1) (o_live s) -> In (id, ser2) (o_live s) -> ser1 = ser2.
+Proof.
+  intros s id ser1 ser2 [Hnd Hl]; rewrite Hl; unfold proj; rewrite !in_map_iff.
+  intros [[k1 i1] [E1 H1]] [[k2 i2] [E2 H2]]; cbn in *. injection E1 as -> <-. injection E2 as -> <-.
+  apply (In_lookup _ _ _ _ Hnd) in H1. apply (In_lookup _ _ _ _ Hnd) in H2. congruence.
+Qed.
+
+Theorem single_instance : forall spoll tr s id ser1 ser2,
+  run spoll init tr = Some s -> In (id, ser1) (o_live s) -> In (id, ser2) (o_live s) -> ser1 = ser2.
+Proof. intros spoll tr s id ser1 ser2 Hr. apply inv_single. eapply run_inv; [apply init_inv | exact Hr]. Qed.
+
+(* a new instance of a handler id can only be live once the previous one is not any more *)
+Theorem no_respawn_before_end : forall spoll tr s l s' id ser ser',
+  run spoll init tr = Some s -> step spoll s l = Some s' ->
+  In (id, ser) (o_live s) -> In (id, ser') (o_live s') -> ser' <> ser -> ~ In (id, ser) (o_live s').
+Proof.
+  intros spoll tr s l s' id ser ser' Hr Hs _ H' Hne Hin. apply Hne.
+  eapply inv_single; [eapply step_inv; [eapply run_inv; [apply init_inv | exact Hr] | exact Hs] | exact H' | exact Hin].
+Qed.
+
+(* the runner's self-removal never fails: `del daemons[handler.id]` finds its own entry *)
+Theorem runner_finds_itself : forall spoll tr s id ser,
+  run spoll init tr = Some s -> In (id, ser) (o_live s) ->
+  exists i, lookup id (o_running s) = Some i /\ i_ser i = ser /\ finish id s <> None.
+Proof.
+  intros spoll tr s id ser Hr Hin. destruct (run_inv _ _ _ _ init_inv Hr) as [Hnd Hl].
+  rewrite Hl in Hin. unfold proj in Hin. apply in_map_iff in Hin as [[k i] [E H]]. cbn in E; injection E as -> <-.
+  exists i. apply (In_lookup _ _ _ _ Hnd) in H. repeat split; auto. unfold finish; rewrite H; discriminate.
+Qed.
+
+(* ---- spawning *)
+Lemma spawn_all_keeps : forall hs s x, In x (keys (o_running s)) -> In x (keys (o_running (spawn_all hs s))).
+Proof.
+  induction hs as [| [id h] hs IH]; cbn; [auto |]. intros s x H. apply IH.
+  destruct (nmem id (keys (o_running s))); [exact H |]. prj. unfold keys; rewrite map_app, in_app_iff; left; exact H.
+Qed.
+
+Lemma spawn_all_spawns : forall hs s x, In x (keys hs) -> In x (keys (o_running (spawn_all hs s))).
+Proof.
+  induction hs as [| [id h] hs IH]; cbn; [intros s x [] |]. intros s x [<- | H]; [| apply IH; exact H].
+  apply spawn_all_keeps. destruct (nmem id (keys (o_running s))) eqn:E; [apply nmem_In; exact E |].
+  prj. unfold keys; rewrite map_app, in_app_iff; right; cbn; auto.
+Qed.
+
+Lemma spawn_all_keys : forall hs s x, In x (keys (o_running (spawn_all hs s))) -> In x (keys (o_running s)) \/ In x (keys hs).
+Proof.
+  induction hs as [| [id h] hs IH]; cbn; [auto |]. intros s x H. apply IH in H as [H | H]; [| auto].
+  destruct (nmem id (keys (o_running s))); [auto |]. revert H; prj. unfold keys; rewrite map_app, in_app_iff; cbn. intuition.
+Qed.
+
+Lemma spawn_all_forever : forall hs s, o_forever (spawn_all hs s) = o_forever s.
+Proof.
+  induction hs as [| [id h] hs IH]; cbn; [reflexivity |]. intros s. rewrite IH. destruct (nmem id (keys (o_running s))); reflexivity.
+Qed.
+
+Lemma turn_lookup_other : forall spoll now why id i ex s k, k <> id ->
+  lookup k (o_running (fst (turn spoll now why id i ex s))) = lookup k (o_running s).
+Proof.
+  intros. unfold turn; cbn [fst].
+  match goal with |- context [if ?c then _ else ?s1] =>
+    assert (H1 : lookup k (o_running s1) = lookup k (o_running s)) by (prj; apply lookup_update_other; auto); destruct c; [| exact H1] end.
+  match goal with |- context [finish id ?s1] => destruct (finish id s1) eqn:E; [| exact H1] end.
+  rewrite (finish_lookup_other _ _ _ _ E H). exact H1.
+Qed.
+
+Lemma stop_list_keeps : forall spoll now why targets orc s k, ~ In k targets ->
+  lookup k (o_running (fst (fst (stop_list spoll now why targets orc s)))) = lookup k (o_running s).
+Proof.
+  induction targets as [| id rest IH]; intros orc s k Hni; [reflexivity |].
+  assert (Hne : k <> id) by (intros ->; apply Hni; cbn; auto).
+  assert (Hr : ~ In k rest) by (intros H; apply Hni; cbn; auto).
+  rewrite stop_list_cons. destruct (lookup id (o_running s)) as [i |] eqn:El; [| apply IH; exact Hr].
+  match goal with |- context [if fst ?o then _ else _] => destruct (fst o) end.
+  - rewrite IH by exact Hr. destruct (finish id s) eqn:Ef; [eapply finish_lookup_other; eauto | reflexivity].
+  - match goal with |- context [stop_list ?a ?b ?c ?d ?e ?f] => specialize (IH e f k Hr); destruct (stop_list a b c d e f) as [[s3 ds] orc3] end.
+    cbn [fst] in *. rewrite IH. apply turn_lookup_other; exact Hne.
+Qed.
+
+Lemma lookup_some_keys : forall A k (l : list (nat * A)) v, lookup k l = Some v -> In k (keys l).
+Proof. intros A k l v H. apply lookup_In in H. change k with (fst (k, v)). apply in_map; exact H. Qed.
+
+Lemma keys_lookup_some : forall A k (l : list (nat * A)), In k (keys l) -> exists v, lookup k l = Some v.
+Proof.
+  intros A k l H. destruct (lookup k l) eqn:E; [eauto |]. apply lookup_keys in E. contradiction.
+Qed.
+
+(* started on match: after an event of an object that is not marked for deletion (operator not paused), every matching
+   handler that never exited on its own has an instance *)
+Theorem spawn_on_match : forall spoll s v now orc s' id h,
+  step spoll s (LProc false v now orc) = Some s' -> v_deleting v = false -> v_paused v = false ->
+  In (id, h) (v_matching v) -> ~ In id (o_forever s) -> In id (keys (o_running s')).
+Proof.
+  intros spoll s v now orc s' id h; cbn [step]. destruct (o_gone s); [discriminate |]. intros E; injection E as <-.
+  intros Hd Hp Hm Hf. unfold proc; rewrite Hd, Hp.
+  set (hs := filter (fun h0 => negb (nmem (fst h0) (o_forever s))) (v_matching v)).
+  assert (Hin : In id (keys hs)).
+  { change id with (fst (id, h)). apply in_map. apply filter_In; split; [exact Hm |]. cbn. apply negb_true_iff, nmem_false; exact Hf. }
+  pose proof (spawn_all_spawns hs s id Hin) as H0. set (s0 := spawn_all hs s) in *.
+  set (mism := filter (fun id0 => negb (nmem id0 (keys hs))) (keys (o_running s0))).
+  assert (Hni : ~ In id mism).
+  { unfold mism; rewrite filter_In. intros [_ H]. apply negb_true_iff, nmem_false in H. contradiction. }
+  pose proof (stop_list_keeps spoll now RMismatch mism orc s0 id Hni) as Hk.
+  destruct (stop_list spoll now RMismatch mism orc s0) as [[s2 d2] orc2]. cbn [fst] in Hk. prj.
+  destruct (keys_lookup_some _ _ _ H0) as [i Hi]. rewrite Hi in Hk. eapply lookup_some_keys; eauto.
+Qed.
+
+(* ---- no restart after an exit on its own accord *)
+Lemma proc_forever_keys : forall spoll v now orc s id,
+  In id (o_forever s) ->
+  In id (o_forever (proc spoll v now orc s)) /\ (In id (keys (o_running (proc spoll v now orc s))) -> In id (keys (o_running s))).
+Proof.
+  intros spoll v now orc s id Hf. unfold proc. destruct (v_deleting v).
+  - pose proof (stop_list_forever spoll now RDeleted (keys (o_running s)) orc s id Hf) as H1.
+    pose proof (stop_list_keys_sub spoll now RDeleted (keys (o_running s)) orc s id) as H2.
+    destruct (stop_list spoll now RDeleted (keys (o_running s)) orc s) as [[s1 ds] o1]. cbn [fst] in *. prj. auto.
+  - set (hs := filter (fun h0 => negb (nmem (fst h0) (o_forever s))) (v_matching v)).
+    assert (Hni : ~ In id (keys hs)).
+    { unfold keys; rewrite in_map_iff. intros [[k h] [E H]]. cbn in E; subst k. apply filter_In in H as [_ H]. cbn in H.
+      apply negb_true_iff, nmem_false in H. contradiction. }
+    pose proof (spawn_all_keys hs s id) as Hk. pose proof (spawn_all_forever hs s) as Hff. set (s0 := spawn_all hs s) in *.
+    assert (Hf0 : In id (o_forever s0)) by (rewrite Hff; exact Hf).
+    match goal with |- context [stop_list spoll now RMismatch ?t orc s0] =>
+      pose proof (stop_list_forever spoll now RMismatch t orc s0 id Hf0) as H1;
+      pose proof (stop_list_keys_sub spoll now RMismatch t orc s0 id) as H2;
+      destruct (stop_list spoll now RMismatch t orc s0) as [[s2 d2] orc2] end. cbn [fst] in *.
+    destruct (v_paused v).
+    + pose proof (stop_list_forever spoll now RPausing (keys (o_running s2)) orc2 s2 id H1) as H3.
+      pose proof (stop_list_keys_sub spoll now RPausing (keys (o_running s2)) orc2 s2 id) as H4.
+      destruct (stop_list spoll now RPausing (keys (o_running s2)) orc2 s2) as [[s3 d3] o3]. cbn [fst] in *. prj.
+      split; [exact H3 |]. intros H. apply H4, H2, Hk in H. tauto.
+    + prj. split; [exact H1 |]. intros H. apply H2, Hk in H. tauto.
+Qed.
+
+Lemma upd_inst_same : forall s id ser f, o_forever (upd_inst s id ser f) = o_forever s /\ keys (o_running (upd_inst s id ser f)) = keys (o_running s).
+Proof.
+  intros. unfold upd_inst. destruct (lookup id (o_running s)); [| auto]. destruct (Nat.eqb _ _); [| auto]. prj. rewrite keys_update; auto.
+Qed.
+
+Lemma step_forever_keys : forall spoll s l s' id, step spoll s l = Some s' -> In id (o_forever s) ->
+  In id (o_forever s') /\ (In id (keys (o_running s')) -> In id (keys (o_running s))).
+Proof.
+  intros spoll s l s' id. destruct l; cbn [step].
+  - destruct (o_gone s); [discriminate |]. intros E; injection E as <-. intros Hf.
+    destruct deleted_event; [apply (proc_forever_keys spoll v now orc (forget s) id Hf) | apply proc_forever_keys; exact Hf].
+  - destruct (lookup id0 (o_running s)) as [i |]; [| discriminate]. destruct (Nat.eqb (i_ser i) ser); [| discriminate].
+    intros Hfin Hf. split; [eapply finish_forever_mono; eauto |]. intros H. apply (finish_keys _ _ _ Hfin) in H. tauto.
+  - destruct (o_known s); [| discriminate]. intros E; injection E as <-. prj; auto.
+  - intros E; injection E as <-. prj; auto.
+  - destruct (o_kiter s); [| discriminate]. intros E; injection E as <-. destruct (has_inst s id0 ser); prj; auto.
+  - destruct (_ && _); [| discriminate]. intros E; injection E as <-.
+    match goal with |- context [upd_inst s ?a ?b ?c] => destruct (upd_inst_same s a b c) as [-> ->] end; auto.
+  - destruct (_ && _); [| discriminate]. intros E; injection E as <-.
+    match goal with |- context [upd_inst s ?a ?b ?c] => destruct (upd_inst_same s a b c) as [-> ->] end; auto.
+  - destruct (_ || _); [| discriminate]. intros E; injection E as <-.
+    match goal with |- context [upd_inst s ?a ?b ?c] => destruct (upd_inst_same s a b c) as [-> ->] end; auto.
+Qed.
+
+Theorem no_restart_after_own_exit : forall spoll tr s s' id,
+  run spoll s tr = Some s' -> In id (o_forever s) -> ~ In id (keys (o_running s)) ->
+  In id (o_forever s') /\ ~ In id (keys (o_running s')).
+Proof.
+  induction tr as [| l tr IH]; cbn; intros s s' id.
+  - intros E; injection E as <-; auto.
+  - destruct (step spoll s l) as [s1 |] eqn:E; [| discriminate]. intros Hr Hf Hn.
+    destruct (step_forever_keys _ _ _ _ id E Hf) as [H1 H2]. apply (IH s1 s' id Hr H1). intros H; apply Hn, H2, H.
+Qed.
+
+Theorem own_exit_is_remembered : forall spoll s id ser s' i,
+  lookup id (o_running s) = Some i -> sp_reason (i_sp i) = None ->
+  step spoll s (LEnd id ser) = Some s' -> In id (o_forever s') /\ ~ In id (keys (o_running s')).
+Proof.
+  intros spoll s id ser s' i Hl Hr; cbn [step]; rewrite Hl. destruct (Nat.eqb (i_ser i) ser); [| discriminate].
+  eapply finish_own_exit; eauto.
+Qed.
+
+(* ---- asked to stop: every daemon targeted by stop_daemons and still there afterwards carries the reason *)
+Definition flagged (why : reason) (s : ost) (id : nat) : Prop :=
+  forall i, lookup id (o_running s) = Some i -> is_set (i_sp i) (Some why) = true.
+
+Lemma finish_some : forall id s i, lookup id (o_running s) = Some i -> exists s', finish id s = Some s'.
+Proof. intros id s i H; unfold finish; rewrite H; eauto. Qed.
+
+Lemma finish_removes : forall id s s', finish id s = Some s' -> lookup id (o_running s') = None.
+Proof.
+  intros id s s'; unfold finish. destruct (lookup id (o_running s)); [| discriminate]. intros H; injection H as <-; prj.
+  apply lookup_remove_same.
+Qed.
+
+Lemma turn_flagged : forall spoll now why id i ex s, lookup id (o_running s) = Some i ->
+  flagged why (fst (turn spoll now why id i ex s)) id.
+Proof.
+  intros spoll now why id i ex s Hl. unfold turn; cbn [fst].
+  set (r := stage (i_h i) spoll now why (i_sp i) false ex).
+  set (i' := {| i_ser := i_ser i; i_h := i_h i; i_sp := r_sp r; i_canc := i_canc i || r_cancel r |}).
+  set (s1 := set_running s (update id i' (o_running s))).
+  assert (H1 : flagged why s1 id).
+  { intros j; unfold s1; prj. rewrite lookup_update_same by congruence. intros E; injection E as <-. cbn. apply stage_sets_reason. }
+  destruct (r_done r); [| exact H1]. destruct (finish id s1) eqn:Ef; [| exact H1].
+  intros j Hj. rewrite (finish_removes _ _ _ Ef) in Hj; discriminate.
+Qed.
+
+Lemma stop_list_flagged_keeps : forall spoll now why targets orc s id,
+  flagged why s id -> flagged why (fst (fst (stop_list spoll now why targets orc s))) id.
+Proof.
+  intros spoll now why targets orc s id.
+  apply (stop_list_R (fun a b => flagged why a id -> flagged why b id)); auto.
+  - intros s0 k i i' Hl Hs. (* an update by somebody else: the general R_upd is too weak here, handled below *)
+Abort.
+
+Lemma stop_list_flags : forall spoll now why targets orc s id,
+  (In id targets \/ flagged why s id) -> flagged why (fst (fst (stop_list spoll now why targets orc s))) id.
+Proof.
+  induction targets as [| id0 rest IH]; intros orc s id H.
+  - destruct H as [[] | H]; exact H.
+  - rewrite stop_list_cons. destruct (lookup id0 (o_running s)) as [i |] eqn:El.
+    + match goal with |- context [if fst ?o then _ else _] => destruct (fst o) end.
+      * destruct (finish_some _ _ _ El) as [s' Ef]. rewrite Ef. apply IH.
+        destruct (Nat.eq_dec id id0) as [-> | Hne].
+        -- right. intros j Hj. rewrite (finish_removes _ _ _ Ef) in Hj; discriminate.
+        -- destruct H as [[H | H] | H]; [congruence | left; exact H |].
+           right. intros j Hj. rewrite (finish_lookup_other _ _ _ _ Ef Hne) in Hj. apply H; exact Hj.
+      * match goal with |- context [stop_list ?a ?b ?c ?d ?e ?f] => specialize (IH e f id); destruct (stop_list a b c d e f) as [[s3 ds] orc3] end.
+        cbn [fst] in *. apply IH.
+        destruct (Nat.eq_dec id id0) as [-> | Hne]; [right; apply turn_flagged; exact El |].
+        destruct H as [[H | H] | H]; [congruence | left; exact H |].
+        right. intros j Hj. rewrite turn_lookup_other in Hj by exact Hne. apply H; exact Hj.
+    + apply IH. destruct (Nat.eq_dec id id0) as [-> | Hne].
+      * right. intros j Hj. congruence.
+      * destruct H as [[H | H] | H]; [congruence | left; exact H | right; exact H].
+Qed.
+
+Lemma with_delays_running : forall s d, o_running (with_delays s d) = o_running s.
+Proof. reflexivity. Qed.
+
+(* object marked for deletion (deletionTimestamp), whatever the event type — also DELETED: every remaining daemon is asked *)
+Theorem stop_on_deletion_mark : forall spoll s del v now orc s' id i,
+  step spoll s (LProc del v now orc) = Some s' -> v_deleting v = true ->
+  lookup id (o_running s') = Some i -> is_set (i_sp i) (Some RDeleted) = true.
+Proof.
+  intros spoll s del v now orc s' id i; cbn [step]. destruct (o_gone s); [discriminate |]. intros E; injection E as <-.
+  intros Hd. unfold proc; rewrite Hd.
+  set (s0 := if del then forget s else s).
+  pose proof (stop_list_flags spoll now RDeleted (keys (o_running s0)) orc s0 id) as H.
+  pose proof (stop_list_keys_sub spoll now RDeleted (keys (o_running s0)) orc s0 id) as Hk.
+  destruct (stop_list spoll now RDeleted (keys (o_running s0)) orc s0) as [[s1 ds] o1]. cbn [fst] in *.
+  rewrite with_delays_running. intros Hl. apply H; [| exact Hl]. left. apply Hk. eapply lookup_some_keys; eauto.
+Qed.
+
+(* stops matching: asked with FILTERS_MISMATCH *)
+Theorem stop_on_mismatch : forall spoll s v now orc s' id i,
+  step spoll s (LProc false v now orc) = Some s' -> v_deleting v = false -> v_paused v = false ->
+  ~ In id (keys (v_matching v)) -> lookup id (o_running s') = Some i -> is_set (i_sp i) (Some RMismatch) = true.
+Proof.
+  intros spoll s v now orc s' id i; cbn [step]. destruct (o_gone s); [discriminate |]. intros E; injection E as <-.
+  intros Hd Hp Hm. unfold proc; rewrite Hd, Hp.
+  set (hs := filter (fun h0 => negb (nmem (fst h0) (o_forever s))) (v_matching v)).
+  set (s0 := spawn_all hs s).
+  set (mism := filter (fun id0 => negb (nmem id0 (keys hs))) (keys (o_running s0))).
+  pose proof (stop_list_flags spoll now RMismatch mism orc s0 id) as H.
+  pose proof (stop_list_keys_sub spoll now RMismatch mism orc s0 id) as Hk.
+  destruct (stop_list spoll now RMismatch mism orc s0) as [[s2 d2] orc2]. cbn [fst] in *.
+  rewrite with_delays_running. intros Hl. apply H; [| exact Hl]. left. unfold mism. apply filter_In. split.
+  - apply Hk. eapply lookup_some_keys; eauto.
+  - apply negb_true_iff, nmem_false. intros Hin. apply Hm. unfold keys, hs in Hin. apply in_map_iff in Hin as [[k h] [Ek Hin]].
+    apply filter_In in Hin as [Hin _]. cbn in Ek; subst k. change id with (fst (id, h)). apply in_map; exact Hin.
+Qed.
+
+(* operator paused: everything (also what this very event spawned) is asked with OPERATOR_PAUSING *)
+Theorem stop_on_pause : forall spoll s v now orc s' id i,
+  step spoll s (LProc false v now orc) = Some s' -> v_deleting v = false -> v_paused v = true ->
+  lookup id (o_running s') = Some i -> is_set (i_sp i) (Some RPausing) = true.
+Proof.
+  intros spoll s v now orc s' id i; cbn [step]. destruct (o_gone s); [discriminate |]. intros E; injection E as <-.
+  intros Hd Hp. unfold proc; rewrite Hd, Hp.
+  match goal with |- context [stop_list spoll now RMismatch ?t orc ?s0] => destruct (stop_list spoll now RMismatch t orc s0) as [[s2 d2] orc2] end.
+  pose proof (stop_list_flags spoll now RPausing (keys (o_running s2)) orc2 s2 id) as H.
+  pose proof (stop_list_keys_sub spoll now RPausing (keys (o_running s2)) orc2 s2 id) as Hk.
+  destruct (stop_list spoll now RPausing (keys (o_running s2)) orc2 s2) as [[s3 d3] o3]. cbn [fst] in *.
+  rewrite with_delays_running. intros Hl. apply H; [| exact Hl]. left. apply Hk. eapply lookup_some_keys; eauto.
+Qed.
+
+(* ---- F7: the object disappears without ever having carried a deletionTimestamp *)
+Definition h0 : hcfg := {| h_kind := KDaemon; h_backoff := None; h_timeout := None; h_polling := None |}.
+Definition v_live : view := {| v_matching := [(0%nat, h0)]; v_deleting := false; v_paused := false |}.
+
+Definition orphan (s : ost) (id ser : nat) : Prop :=
+  o_gone s = true /\ o_known s = false /\ o_kiter s = false /\ ~ In ser (o_kstop s) /\
+  exists i, lookup id (o_running s) = Some i /\ i_ser i = ser /\ sp_reason (i_sp i) = None.
+
+Lemma stop_on_disappear_refuted :
+  exists tr s, run 1000 init (tr ++ [LProc true v_live 0 []]) = Some s /\ orphan s 0 0 /\ In (0%nat, 0%nat) (o_live s).
+Proof.
+  exists [LProc false v_live 0 []]. eexists. split; [vm_compute; reflexivity |]. split.
+  - unfold orphan; cbn. repeat split; auto. eexists; repeat split; reflexivity.
+  - cbn; auto.
+Qed.
+
+(* ... and nothing the operator does afterwards (events, pause, exit) ever asks it to stop *)
+Lemma orphan_step : forall spoll s l s' id ser, orphan s id ser -> step spoll s l = Some s' ->
+  orphan s' id ser \/ lookup id (o_running s') = None.
+Proof.
+  intros spoll s l s' id ser (Hg & Hk & Hi & Hn & i & Hl & Hs & Hr). destruct l; cbn [step].
+  - rewrite Hg; discriminate.
+  - destruct (lookup id0 (o_running s)) as [j |] eqn:Ej; [| discriminate]. destruct (Nat.eqb (i_ser j) ser0); [| discriminate].
+    intros Hf. destruct (Nat.eq_dec id id0) as [-> | Hne]; [right; eapply finish_removes; eauto |].
+    left. destruct (finish_misc _ _ _ Hf) as (E1 & E2 & E3 & E4 & _). unfold orphan. rewrite E1, E2, E3, E4.
+    repeat split; auto. exists i. rewrite (finish_lookup_other _ _ _ _ Hf Hne). auto.
+  - rewrite Hk; discriminate.
+  - intros E; injection E as <-. left. unfold orphan; prj. repeat split; auto. exists i; auto.
+  - rewrite Hi; discriminate.
+  - destruct (_ && _) eqn:G; [| discriminate]. intros E; injection E as <-. left.
+    apply andb_prop in G as [G _].
+    unfold upd_inst. destruct (lookup id0 (o_running s)) as [j |] eqn:Ej; [| unfold orphan; repeat split; auto; exists i; auto].
+    destruct (Nat.eqb (i_ser j) ser0) eqn:Es; [| unfold orphan; repeat split; auto; exists i; auto].
+    destruct (Nat.eq_dec id id0) as [-> | Hne].
+    + exfalso. rewrite Hl in Ej; injection Ej as <-. apply Nat.eqb_eq in Es. unfold has_inst in G. rewrite Hl in G.
+      rewrite Hs in *. subst ser0. rewrite Nat.eqb_refl in G. cbn in G. rewrite orb_false_r in G. apply nmem_In in G. contradiction.
+    + unfold orphan; prj. repeat split; auto. exists i. rewrite lookup_update_other by exact Hne. auto.
+  - destruct (_ && _) eqn:G; [| discriminate]. intros E; injection E as <-. left.
+    apply andb_prop in G as [G _].
+    unfold upd_inst. destruct (lookup id0 (o_running s)) as [j |] eqn:Ej; [| unfold orphan; repeat split; auto; exists i; auto].
+    destruct (Nat.eqb (i_ser j) ser0) eqn:Es; [| unfold orphan; repeat split; auto; exists i; auto].
+    destruct (Nat.eq_dec id id0) as [-> | Hne].
+    + exfalso. rewrite Hl in Ej; injection Ej as <-. apply Nat.eqb_eq in Es. unfold has_inst in G. rewrite Hl in G.
+      rewrite Hs in *. subst ser0. rewrite Nat.eqb_refl in G. cbn in G. rewrite orb_false_r in G. apply nmem_In in G. contradiction.
+    + unfold orphan; prj. repeat split; auto. exists i. rewrite lookup_update_other by exact Hne. auto.
+  - destruct (_ || _) eqn:G; [| discriminate]. intros E; injection E as <-. left.
+    unfold upd_inst. destruct (lookup id0 (o_running s)) as [j |] eqn:Ej; [| unfold orphan; repeat split; auto; exists i; auto].
+    destruct (Nat.eqb (i_ser j) ser0) eqn:Es; [| unfold orphan; repeat split; auto; exists i; auto].
+    destruct (Nat.eq_dec id id0) as [-> | Hne].
+    + exfalso. rewrite Hl in Ej; injection Ej as <-. apply Nat.eqb_eq in Es. unfold has_inst in G. rewrite Hl in G.
+      rewrite Hs in *. subst ser0. rewrite Nat.eqb_refl in G. cbn in G. rewrite orb_false_r in G. apply nmem_In in G. contradiction.
+    + unfold orphan; prj. repeat split; auto. exists i. rewrite lookup_update_other by exact Hne. auto.
+Qed.
+
+Theorem orphan_never_stopped : forall spoll tr s s' id ser, orphan s id ser -> run spoll s tr = Some s' ->
+  forall i, lookup id (o_running s') = Some i -> i_ser i = ser /\ sp_reason (i_sp i) = None.
+Proof.
+  induction tr as [| l tr IH]; cbn; intros s s' id ser Ho.
+  - intros E; injection E as <-. destruct Ho as (_ & _ & _ & _ & i & Hl & Hs & Hr). intros j Hj. rewrite Hl in Hj; injection Hj as <-; auto.
+  - destruct (step spoll s l) as [s1 |] eqn:E; [| discriminate]. intros Hr.
+    destruct (orphan_step _ _ _ _ _ _ Ho E) as [Ho1 | Hnone]; [eapply IH; eauto |].
+    (* the instance has ended; nothing of that id can reappear: the object is gone *)
+    assert (Hg : o_gone s1 = true /\ lookup id (o_running s1) = None).
+    { split; [| exact Hnone]. destruct Ho as (Hg & _). destruct l; cbn [step] in E.
+      - rewrite Hg in E; discriminate.
+      - destruct (lookup id0 (o_running s)); [| discriminate]. destruct (Nat.eqb _ _); [| discriminate].
+        destruct (finish_misc _ _ _ E) as (_ & E2 & _). congruence.
+      - destruct (o_known s); [| discriminate]. injection E as <-; exact Hg.
+      - injection E as <-; exact Hg.
+      - destruct (o_kiter s); [| discriminate]. injection E as <-. destruct (has_inst s id0 ser0); exact Hg.
+      - destruct (_ && _); [| discriminate]. injection E as <-. unfold upd_inst. destruct (lookup id0 (o_running s)); [| exact Hg]. destruct (Nat.eqb _ _); exact Hg.
+      - destruct (_ && _); [| discriminate]. injection E as <-. unfold upd_inst. destruct (lookup id0 (o_running s)); [| exact Hg]. destruct (Nat.eqb _ _); exact Hg.
+      - destruct (_ || _); [| discriminate]. injection E as <-. unfold upd_inst. destruct (lookup id0 (o_running s)); [| exact Hg]. destruct (Nat.eqb _ _); exact Hg. }
+    clear - Hg Hr. revert s1 Hg Hr. induction tr as [| l2 tr IH2]; cbn; intros s1 [Hg Hn].
+    + intros E; injection E as <-. intros j Hj; congruence.
+    + destruct (step spoll s1 l2) as [s2 |] eqn:E2; [| discriminate]. apply IH2. split.
+      * destruct l2; cbn [step] in E2.
+        -- rewrite Hg in E2; discriminate.
+        -- destruct (lookup id0 (o_running s1)); [| discriminate]. destruct (Nat.eqb _ _); [| discriminate].
+           destruct (finish_misc _ _ _ E2) as (_ & G2 & _). congruence.
+        -- destruct (o_known s1); [| discriminate]. injection E2 as <-; exact Hg.
+        -- injection E2 as <-; exact Hg.
+        -- destruct (o_kiter s1); [| discriminate]. injection E2 as <-. destruct (has_inst s1 id0 ser0); exact Hg.
+        -- destruct (_ && _); [| discriminate]. injection E2 as <-. unfold upd_inst. destruct (lookup id0 (o_running s1)); [| exact Hg]. destruct (Nat.eqb _ _); exact Hg.
+        -- destruct (_ && _); [| discriminate]. injection E2 as <-. unfold upd_inst. destruct (lookup id0 (o_running s1)); [| exact Hg]. destruct (Nat.eqb _ _); exact Hg.
+        -- destruct (_ || _); [| discriminate]. injection E2 as <-. unfold upd_inst. destruct (lookup id0 (o_running s1)); [| exact Hg]. destruct (Nat.eqb _ _); exact Hg.
+      * apply lookup_keys. intros Hin. apply lookup_keys in Hn. apply Hn.
+        destruct l2; cbn [step] in E2.
+        -- rewrite Hg in E2; discriminate.
+        -- destruct (lookup id0 (o_running s1)); [| discriminate]. destruct (Nat.eqb _ _); [| discriminate].
+           apply (finish_keys _ _ _ E2) in Hin. tauto.
+        -- destruct (o_known s1); [| discriminate]. injection E2 as <-; exact Hin.
+        -- injection E2 as <-; exact Hin.
+        -- destruct (o_kiter s1); [| discriminate]. injection E2 as <-. destruct (has_inst s1 id0 ser0); exact Hin.
+        -- destruct (_ && _); [| discriminate]. injection E2 as <-.
+           match type of Hin with context [upd_inst s1 ?a ?b ?c] => destruct (upd_inst_same s1 a b c) as [_ Ek]; rewrite Ek in Hin end; exact Hin.
+        -- destruct (_ && _); [| discriminate]. injection E2 as <-.
+           match type of Hin with context [upd_inst s1 ?a ?b ?c] => destruct (upd_inst_same s1 a b c) as [_ Ek]; rewrite Ek in Hin end; exact Hin.
+        -- destruct (_ || _); [| discriminate]. injection E2 as <-.
+           match type of Hin with context [upd_inst s1 ?a ?b ?c] => destruct (upd_inst_same s1 a b c) as [_ Ek]; rewrite Ek in Hin end; exact Hin.
+Qed.
+
+(* non-vacuity of the positive statements *)
+Example stop_on_deletion_nonvacuous :
+  exists s i, run 1000 init [LProc false v_live 0 []; LProc false {| v_matching := [(0%nat, h0)]; v_deleting := true; v_paused := false |} 5 [(false, [false])]] = Some s
+              /\ lookup 0%nat (o_running s) = Some i /\ is_set (i_sp i) (Some RDeleted) = true /\ o_delays s = [1000].
+Proof. eexists; eexists; split; [vm_compute; reflexivity |]. repeat split; reflexivity. Qed.
+
+Example single_instance_nonvacuous :
+  exists s, run 1000 init [LProc false v_live 0 []; LProc false v_live 1 []] = Some s /\ o_live s = [(0%nat, 0%nat)].
+Proof. eexists; split; vm_compute; reflexivity. Qed.
